@@ -388,3 +388,26 @@ def random_uni_op(rp, mw, cur_tick, hostile=0.15):
         return {"op": "uni.remove_all", "m": name, "a": {}}
     lo, hi = rng_ticks()
     return {"op": "uni.add_by_value", "m": name, "a": {"lo": lo, "hi": hi, "value": {"f": f"wallet:{q}", "x": str(round(rp.uniform(0.01, 0.2), 3))}}}
+
+
+def random_uni_read(rp, mw, cur_tick):
+    """One read-only call of the market's public API (reads are operations too: they must not change any state, the
+    process-wide Decimal context included)."""
+    sp = spacing_of(mw["fee"])
+    kind = rp.choice(["balance", "position_status", "estimate_liquidity", "estimate_liquidity", "estimate_amount", "price_to_tick", "tick_to_price"])
+    lo = (int(cur_tick) // sp) * sp - rp.randint(1, 8) * sp
+    hi = lo + rp.randint(2, 20) * sp
+    if kind == "balance":
+        o = {"op": "uni.read_balance", "a": {}}
+    elif kind == "position_status":
+        o = {"op": "uni.read_position_status", "a": {"pos": {"i": rp.randint(0, 3), "lo0": lo, "hi0": hi}}}
+    elif kind == "estimate_liquidity":
+        o = {"op": "uni.estimate_liquidity", "a": {"value": {"abs": rp.choice(["1", "250.5", "10000"])}, "pos": {"i": rp.randint(0, 3), "lo0": lo, "hi0": hi}}}
+    elif kind == "estimate_amount":
+        o = {"op": "uni.estimate_amount", "a": {"value": {"abs": rp.choice(["1", "250.5", "10000"])}, "lo": lo, "hi": hi}}
+    elif kind == "price_to_tick":
+        o = {"op": "uni.price_to_tick", "a": {"price": rp.choice(["0.5", "1800.25", "27000", "0.0004"])}}
+    else:
+        o = {"op": "uni.tick_to_price", "a": {"tick": int(cur_tick) + rp.randint(-500, 500)}}
+    o["m"] = mw["name"]
+    return o
